@@ -685,6 +685,10 @@ func (rdb *RDB) IsV2KeySyntaxUsed() bool {
 func (rdb *RDB) get(key []byte, ctx *Context) (data []byte, err error) {
 	cachedEntry, ok := ctx.cache[string(key)]
 
+	if ok && !bytes.Equal(cachedEntry.key, key) {
+		// left by a closest-key search for this key: a smaller key is the closest one, this key does not exist
+		return nil, nil
+	}
 	if ok {
 		data = cachedEntry.data
 	} else {
@@ -692,7 +696,10 @@ func (rdb *RDB) get(key []byte, ctx *Context) (data []byte, err error) {
 		if err != nil {
 			return nil, err
 		}
-		ctx.update(key, key, data)
+		if len(data) != 0 {
+			// a miss is not cached: FindClosest would take the entry for an existing key
+			ctx.update(key, key, data)
+		}
 	}
 
 	return data, nil
